@@ -181,8 +181,47 @@ def monitor(case, impl):
     return None
 
 
+import collections
+STATS = collections.Counter()
+
+
+def _stats(case, model):
+    """which branches of the model the generated cases reach (written to the evidence)"""
+    kind = "S" if case.startswith("c13S") else "B"
+    toks = case.split()[1:]
+    prev = dict(l=0, c=0, p=0)
+    for tok, line in zip(toks, split_trace(model)):
+        o = parse_line(kind, line)
+        if o is None or o["panic"] or o.get("b") == "PANIC":
+            STATS[kind + ":panic"] += 1
+            break
+        try:
+            cur = dict(l=int(o["l"]), c=int(o.get("c", 0)), p=int(o["p"]))
+        except ValueError:
+            break
+        k = tok[0]
+        if k == "s":
+            STATS["%s:seek-%s-whence%s" % (kind, "fail" if o["ret"] == "SE" else "ok", tok[1:].split(":")[0] if tok[1:].split(":")[0] in "012" else "-invalid")] += 1
+        elif k in "rn":
+            STATS["%s:read-%s" % (kind, "empty" if o["ret"] in ("N", "R0:", "R0::EOF", "R0::E") else "data")] += 1
+        elif k == "t":
+            STATS["%s:tidy-%s" % (kind, "moves" if prev["p"] > 0 else "noop")] += 1
+        elif k in "wg" and kind == "B":
+            if cur["c"] != prev["c"]:
+                br = "make64" if (prev["c"] == 0 and cur["c"] == 64) else "reallocate"
+            elif prev["p"] > 0 and cur["p"] == 0:
+                br = "reset-if-empty" if prev["l"] == 0 else "slide-down"
+            else:
+                br = "reslice"
+            STATS["B:grow-%s%s" % (br, "-cursor-mid" if prev["p"] > 0 and prev["l"] > 0 else "")] += 1
+        else:
+            STATS["%s:%s" % (kind, k)] += 1
+        prev = cur
+
+
 def nontrivial(case, model):
     """a read that returns data after a seek or a compaction, in a sequence of >= 3 ops"""
+    _stats(case, model)
     t = case.split()[1:]
     if len(t) < 3:
         return False
@@ -330,6 +369,55 @@ def gen_buffer_random(rng, count):
     return out
 
 
+def gen_buffer_scenarios(rng, count):
+    """steer into grow's slide-down / reallocate decision (n <= cap/2 - Len, just above, just
+    below) with a consumed prefix and a cursor in the middle, then read everything back"""
+    out = []
+    for _ in range(count):
+        sim = BufSim()
+        toks = []
+
+        def w(k):
+            toks.append("w%d" % k)
+            if k <= sim.cap - sim.l:
+                sim.l += k
+            else:
+                sim.grow(k)
+
+        # establish a capacity
+        for _ in range(rng.range(1, 3)):
+            w(rng.choice([1, 40, 64, 65, 100, rng.range(1, 300)]))
+        # fill close to the capacity
+        w(max(0, sim.cap - sim.l - rng.choice([0, 0, 1, 2, 5, rng.range(0, 20)])))
+        # consume most of it
+        un = sim.l - sim.off
+        keep = rng.choice([0, 1, 2, 3, rng.range(0, max(1, sim.cap // 2))])
+        k = max(0, un - keep)
+        toks.append(rng.choice(["r%d", "n%d"]) % k)
+        sim.off += min(k, un)
+        if rng.chance(1, 3) and sim.off > 0:   # step back into consumed data
+            back = rng.range(1, min(sim.off, 5))
+            toks.append("s1:-%d" % back)
+            sim.off -= back
+        m = sim.l - sim.off
+        thr = sim.cap // 2 - m
+        n = rng.choice([thr, thr + 1, thr - 1, sim.cap - sim.l + 1, max(1, thr // 2), thr + rng.range(0, 40)])
+        n = max(0, min(n, 900))
+        if rng.chance(1, 4):
+            toks.append("g%d" % n)
+            sim.grow(n)
+            sim.l -= n
+        else:
+            w(n)
+        # look around and drain
+        toks.append(rng.choice(["s0:0", "s2:0", "s1:1", "s1:-1", "t", "s0:%d" % (sim.l - sim.off)]))
+        toks.append("s0:0")
+        toks.append("r%d" % rng.choice([sim.l + 1, sim.l, max(0, sim.l - 1)]))
+        toks.append("r1")
+        out.append("c13B " + " ".join(toks))
+    return out
+
+
 def gen_malformed(rng, count):
     """negative Next/Grow sizes (outside the property's quantifier): model and code must
     still agree (both panic at the same op)"""
@@ -356,6 +444,7 @@ def gen(rng, tier):
         ex += ["c13B " + " ".join(p) for p in product(B_ALPHA, 4)]
     streams.append(("buffer-exhaustive-short", sorted(set(ex))))
     streams.append(("buffer-random-long", gen_buffer_random(rng, 600 if quick else 6000)))
+    streams.append(("buffer-grow-thresholds", gen_buffer_scenarios(rng, 1500 if quick else 15000)))
     streams.append(("buffer-negative-sizes", gen_malformed(rng, 100 if quick else 1000)))
     # ---- OctetsStream, bounded-exhaustive
     ex = []
@@ -491,6 +580,7 @@ def run(chk):
     if binary:
         streams = [("corpus", pure.corpus_cases("C13"))] + gen(chk.rng, chk.tier)
         pure.run_streams(chk, binary, streams, compare, monitor, nontrivial)
+        chk.cov["model_branches_hit"] = dict(sorted(STATS.items()))
         try:
             canary(chk, binary)
             sample = []
